@@ -106,6 +106,12 @@ def classify(d, groups, regnames=()):
     fld = r"(skipping field|unknown field|last recordKey field name was) '[^']*'"
     if "unknown field '" in a and "unknown field '" in b and re.sub(fld, r"\1 'X'", a) == re.sub(fld, r"\1 'X'", b):
         return "togo-unknown-field-order"
+    # same walk (record fields in bucket order): which ill-typed field the reflect panic names
+    rk = r"last recordKey field name was '[^']*'"
+    rp = r"reflect: call of reflect\.Value\.\w+ on \w+ Value|reflect\.Set: value of type \S+ is not assignable to type \S+"
+    if "(togo" in prog and re.search(rk, a) and re.search(rk, b) and re.search(rp, a) and re.search(rp, b) \
+            and re.sub(rp, "RP", re.sub(rk, "RK", a)) == re.sub(rp, "RP", re.sub(rk, "RK", b)):
+        return "togo-unknown-field-order"
     # a record coming back from Go named by another of the names its type is registered under
     ca, cb = canon_aliases(a, groups), canon_aliases(b, groups)
     if ca == cb:
@@ -154,12 +160,24 @@ def run_search(c, extra=()):
     cases = c.harness("c20", extra_args=extra, timeout=3000)
     if not cases:
         return None, None
-    diffs = json.load(open(os.path.join(os.path.dirname(cases), "C20.diffs.json")))
+    diffs = json.load(open(os.path.join(os.path.dirname(cases), "C20.diffs.json"))) or []
     return cases, diffs
 
 
 def main(argv):
     c = Check("C20", argv)
+    try:
+        run(c)
+    except Exception:
+        import traceback
+        tb = traceback.format_exc()
+        c.log("check driver error:\n" + tb)
+        c.violation({"kind": "the check driver failed before reaching a verdict (this is a defect of the check, reported as a failure rather than silence)",
+                     "traceback": tb[-3000:], "proof_break": getattr(c, "proof_break", None)}, no_input=True, tag="driver")
+        c.finish("proof")
+
+
+def run(c):
     ok_census = census(c)
     c.proofs()
     c.trusted_base([
@@ -189,7 +207,7 @@ def main(argv):
     unknown, by_finding = [], {}
 
     def absorb(diffs):
-        for d in diffs:
+        for d in diffs or []:
             fid = classify(d, groups, regnames)
             if fid and c.known_finding(fid, "%s [%s]: %s" % (d["id"], d["kind"], short(d))):
                 by_finding.setdefault(fid, []).append(d)
